@@ -165,7 +165,7 @@ class Bed12Leg(object):
                 "strand": draw(st.sampled_from(["+", "-", "."])), "score": draw(st.sampled_from([".", "0", "7.5"])),
                 "has_name": draw(st.booleans()), "name_field": draw(st.sampled_from(["ID", "Name", "ID"])),
                 "arg": draw(st.sampled_from(["id", "feature"])),
-                "blocks": draw(st.sampled_from([["exon"], "exon", ["exon", "CDS"], ["nothing"]])),
+                "blocks": draw(st.sampled_from([["exon"], "exon", ["exon", "CDS"], ["nothing"], "noncoding_exon", "exon_CDS"])),
                 "thick": draw(st.sampled_from(["CDS", ["CDS"], None])),
                 "color": draw(st.sampled_from([None, None, "255,0,0", "1, 2, 3"])),
                 "always_return_list": draw(st.integers(0, 5)) > 0,
